@@ -203,3 +203,31 @@ func WSpare[S ~[]E, E any](site uint32, s S) {
 		}
 	}
 }
+
+// WP / WMP: a write to a location rooted at a package-level variable. Besides the
+// ordinary record, the write is checked on its own: package-level state is shared by
+// every goroutine by construction, so a write to it at parse/render time that is not
+// under a modelled lock, inside a sync.Once or an atomic is a data race as soon as two
+// goroutines perform the same operation (which the property allows) -- reported even
+// if no second task happened to touch the location in this schedule.
+func WP[T any](site uint32, p *T) {
+	W(site, p)
+	if accActive && unsafe.Sizeof(*p) != 0 {
+		unprotected(site, uintptr(unsafe.Pointer(p)), false)
+	}
+}
+
+func WMP[M ~map[K]V, K comparable, V any](site uint32, m M) {
+	WM(site, m)
+	if accActive {
+		unprotected(site, mapID(m), true)
+	}
+}
+
+func unprotected(site uint32, addr uintptr, isMap bool) {
+	t := curTask
+	if t == nil || t.locks > 0 || t.inOnce > 0 {
+		return
+	}
+	report(Conflict{Addr: addr, SiteA: site, TaskA: t.id, WriteA: true, SiteB: site, TaskB: 0, WriteB: true, Map: isMap})
+}
